@@ -146,6 +146,11 @@ pub struct MCOptimiser {
 impl MCOptimiser {
     #[inline]
     fn energy_surface(&self, new: f64, old: f64, kt: f64) -> f64 {
+        // Without a positive temperature only scores which are not worse are accepted. This also
+        // covers a temperature which is no longer a number.
+        if !(kt > 0.) {
+            return if new >= old { 1. } else { 0. };
+        }
         f64::min(f64::exp((new - old) / kt), 1.)
     }
 
